@@ -38,7 +38,8 @@ LEVEL_TEXT = ('For every bounded configuration and every copy operation: the '
               'twin under every edit sequence, and the original reports and '
               'builds the same after every edit of the copy.')
 LEVEL_NOTE = ('Trusted: mc.canon, mutable_ids. Bounds: N<=3 nodes, edit '
-              'sequences <=2 (quick) / 3 (thorough).')
+              'sequences <=2; the thorough tier adds three-node shapes of the '
+              'reduced menu and copy_with / deepcopy_with as first operation.')
 
 MENU = ['cfg', 'par', 'cfgpos', 'list2', 'dict1', 'tuple1', 'mutdef', 'ckw',
         'cann']
@@ -50,7 +51,7 @@ def bounds(tier):
   if tier == 'quick':
     return dict(n=2, n_small=2, small_menu=['cfg', 'par', 'list2'], seq=2,
                 long_ops=['deepcopy', 'copy', 'pickle', 'cast_partial'])
-  return dict(n=2, n_small=3, small_menu=['cfg', 'par', 'list2'], seq=3,
+  return dict(n=2, n_small=3, small_menu=['cfg', 'par', 'list2'], seq=2,
               long_ops=['deepcopy', 'copy', 'pickle', 'cast_partial',
                         'copy_with', 'deepcopy_with'])
 
